@@ -517,3 +517,55 @@ func floatToIntConverts(fn *ssa.Function) []*ssa.Convert {
 	}
 	return out
 }
+
+// rdpDistanceFn resolves the point-to-chord distance helper of the Douglas-Peucker worker by its role: the function
+// of package xy that dpWorker (or a function literal in it) calls with at least three coordinate arguments and that
+// returns one float64. A rename keeps the role; the historical name is the fall-back.
+func rdpDistanceFn(p *core.Program) *ssa.Function {
+	dw := p.SSAFunc("xy", "dpWorker")
+	if dw != nil {
+		var cands []*ssa.Function
+		var scan func(f *ssa.Function)
+		scan = func(f *ssa.Function) {
+			for _, c := range eng.Calls(f) {
+				g := eng.StaticCallee(c)
+				if g == nil || core.FnPkgPath(g) != mod+"/xy" || g == dw || g.Signature.Results().Len() != 1 {
+					continue
+				}
+				if b, ok := g.Signature.Results().At(0).Type().Underlying().(*types.Basic); !ok || b.Kind() != types.Float64 {
+					continue
+				}
+				n := 0
+				for _, prm := range g.Params {
+					if isFloatSlice(prm.Type()) || isCoordType(prm.Type()) {
+						n++
+					}
+				}
+				if n >= 3 {
+					dup := false
+					for _, x := range cands {
+						dup = dup || x == g
+					}
+					if !dup {
+						cands = append(cands, g)
+					}
+				}
+			}
+			for _, a := range f.AnonFuncs {
+				scan(a)
+			}
+		}
+		scan(dw)
+		if len(cands) == 1 {
+			return cands[0]
+		}
+	}
+	return p.SSAFunc("xy", "distanceFromSegmentSquared")
+}
+
+func rdpDistanceName(p *core.Program) string {
+	if f := rdpDistanceFn(p); f != nil {
+		return f.Name()
+	}
+	return "distanceFromSegmentSquared"
+}
